@@ -4,7 +4,7 @@
     Hypotheses used throughout: [gwf p] (every stored column index is < n) and [gnd p] (no row stores
     a column twice: the walk matrix [A01] of the specification is 0/1, whereas the code would count a
     duplicated CSR entry twice).  No connectivity hypothesis: unreachable nodes contribute 0. *)
-From Coq Require Import Qabs Qreduction Lqa Psatz Lia Setoid Permutation Sorted.
+From Coq Require Import Qabs Qreduction Lqa Lia Setoid Permutation Sorted.
 From SKN Require Import Base.Util Model.Bfs Proofs.BfsProofs Model.PageRank Proofs.PageRankProofs Model.Centrality.
 Close Scope Q_scope.
 Open Scope nat_scope.
@@ -721,10 +721,12 @@ Section Forward.
     InvS seen i (row p i) dists sigma preds -> OutS (i :: seen) dists sigma preds.
   Proof.
     intros [H1 H2 H3 H4 H5]. constructor; try assumption.
-    - intros w Hw Hws. rewrite (H4 w Hw Hws). rewrite lsumf_cons. unfold tm at 3, pc, curb.
-      destruct (memn w (row p i) && (dzf dists i + 1 =? dzf dists w)%Z); ring.
-    - intros w Hw. rewrite (H5 w Hw). cbn [rev]. rewrite filter_app. cbn [filter]. unfold pc at 3, curb.
-      destruct (memn w (row p i) && (dzf dists i + 1 =? dzf dists w)%Z); reflexivity.
+    - intros w Hw Hws. rewrite (H4 w Hw Hws). rewrite lsumf_cons.
+      assert (E : tm dists sigma w i = if curb dists i (row p i) w then zq (nthz sigma i) else 0%Q) by reflexivity.
+      rewrite E. destruct (curb dists i (row p i) w); ring.
+    - intros w Hw. rewrite (H5 w Hw). cbn [rev]. rewrite filter_app. cbn [filter].
+      assert (E : pc dists w i = curb dists i (row p i) w) by reflexivity.
+      rewrite E. destruct (curb dists i (row p i) w); reflexivity.
   Qed.
 
   Lemma memn_snoc w r j : memn w (r ++ [j]) = memn w r || Nat.eqb w j.
@@ -817,4 +819,577 @@ Section Forward.
         * apply Nat.eqb_eq in E. subst w. rewrite (H5 j Hj), Hcbj. reflexivity.
         * exact (H5 w Hw).
   Qed.
+  (** ** [visit_edge], the row loop, the queue loop *)
+  Lemma visit_edge_eq i st j :
+    let qd := dstep i j (b_queue st, b_dists st) in
+    let hit := (dzf (snd qd) j =? dzf (snd qd) i + 1)%Z in
+    visit_edge i st j =
+    {| b_queue := fst qd; b_dists := snd qd;
+       b_sigma := if hit then updz (b_sigma st) j (nthz (b_sigma st) j + nthz (b_sigma st) i)%Z else b_sigma st;
+       b_preds := if hit then updl (b_preds st) j (nth j (b_preds st) [] ++ [i]) else b_preds st |}.
+  Proof.
+    destruct st as [q d sg pr]. unfold visit_edge, dstep, dzf. cbn [b_queue b_dists b_sigma b_preds fst snd].
+    destruct (nthz d j <? 0)%Z; cbn [b_queue b_dists b_sigma b_preds fst snd].
+    - destruct (nthz (updz d j (nthz d i + 1)%Z) j =? nthz (updz d j (nthz d i + 1)%Z) i + 1)%Z; reflexivity.
+    - destruct (nthz d j =? nthz d i + 1)%Z; reflexivity.
+  Qed.
+
+  Definition IInv (seen : list nat) (i : nat) (r1 : list nat) (st : bstate) : Prop :=
+    InvD seen i r1 (b_queue st) (b_dists st) /\ InvS seen i r1 (b_dists st) (b_sigma st) (b_preds st).
+  Definition OInv (seen : list nat) (st : bstate) : Prop :=
+    OutD seen (b_queue st) (b_dists st) /\ OutS seen (b_dists st) (b_sigma st) (b_preds st).
+
+  Lemma InvD_weaken seen i r1 j q d : InvD seen i (r1 ++ [j]) q d -> InvD seen i r1 q d.
+  Proof.
+    intros [HC HR HCl Hcur]. constructor; try assumption.
+    intros w Hw. apply Hcur. apply in_app_iff. left. exact Hw.
+  Qed.
+
+  Lemma IInv_step seen i r1 st j :
+    IInv seen i r1 st -> In j (row p i) -> ~ In j r1 -> IInv seen i (r1 ++ [j]) (visit_edge i st j).
+  Proof.
+    intros [HD HS] Hin Hnr. assert (Hj := Hwf _ _ Hin). rewrite visit_edge_eq. cbv zeta.
+    unfold IInv. cbn [b_queue b_dists b_sigma b_preds].
+    assert (HD' := InvD_step seen i r1 _ _ j HD Hj Hin).
+    split; [exact HD'|].
+    apply (InvS_stage2 seen i r1 (fst (dstep i j (b_queue st, b_dists st)))).
+    - apply (InvD_weaken _ _ _ j). exact HD'.
+    - apply (InvS_stage1 seen i r1 (b_queue st)); assumption.
+    - exact Hj.
+    - exact Hnr.
+  Qed.
+
+  Lemma IInv_fold seen i : forall r2 r1 st,
+    row p i = r1 ++ r2 -> IInv seen i r1 st -> IInv seen i (row p i) (fold_left (visit_edge i) r2 st).
+  Proof.
+    induction r2 as [|j r2 IH]; intros r1 st E H.
+    - rewrite app_nil_r in E. rewrite E. exact H.
+    - cbn [fold_left]. apply (IH (r1 ++ [j])).
+      + rewrite <- app_assoc. exact E.
+      + apply IInv_step; [exact H| |].
+        * rewrite E. apply in_app_iff. right. left. reflexivity.
+        * assert (N := Hnd i). rewrite E in N. apply NoDup_remove_2 in N.
+          intros Hc. apply N. apply in_app_iff. left. exact Hc.
+  Qed.
+
+  Lemma OInv_pop seen i q d sg pr :
+    OInv seen {| b_queue := i :: q; b_dists := d; b_sigma := sg; b_preds := pr |} ->
+    OInv (i :: seen) (fold_left (visit_edge i) (row p i) {| b_queue := q; b_dists := d; b_sigma := sg; b_preds := pr |}).
+  Proof.
+    intros [HD HS]. cbn [b_queue b_dists b_sigma b_preds] in *.
+    assert (H0 : IInv seen i [] {| b_queue := q; b_dists := d; b_sigma := sg; b_preds := pr |}).
+    { split; cbn [b_queue b_dists b_sigma b_preds]; [apply OutD_pop; exact HD|apply OutS_pop; exact HS]. }
+    destruct (IInv_fold seen i (row p i) [] _ eq_refl H0) as [HD' HS'].
+    split; [apply InvD_done; exact HD'|apply InvS_done; exact HS'].
+  Qed.
+
+  Lemma nodup_bound (L : list nat) : NoDup L -> (forall v, In v L -> v < length p) -> length L <= length p.
+  Proof.
+    intros N Hlt. rewrite <- (seq_length (length p) 0). apply NoDup_incl_length; [exact N|].
+    intros v Hv. apply in_seq. assert (H := Hlt v Hv). lia.
+  Qed.
+
+  Lemma brandes_bfs_inv : forall fuel st seen,
+    OInv seen st -> length p <= length seen + fuel ->
+    OInv (snd (brandes_bfs fuel p st seen)) (fst (brandes_bfs fuel p st seen)) /\
+    b_queue (fst (brandes_bfs fuel p st seen)) = [].
+  Proof.
+    induction fuel as [|f IH]; intros st seen HI Hf; cbn [brandes_bfs].
+    - cbn [fst snd]. split; [exact HI|]. destruct HI as [[HC _ _] _].
+      assert (B := nodup_bound _ (c_nd _ _ HC) (c_lt _ _ HC)). rewrite app_length, rev_length in B.
+      destruct (b_queue st) as [|x q]; [reflexivity|cbn [length] in B; lia].
+    - destruct st as [q0 d sg pr]. cbn [b_queue b_dists b_sigma b_preds]. destruct q0 as [|i q].
+      + cbn [fst snd]. split; [exact HI|reflexivity].
+      + apply IH; [apply OInv_pop; exact HI|cbn [length]; lia].
+  Qed.
+
+  Definition fwd_init : bstate :=
+    {| b_queue := [s]; b_dists := updz (repeat (-1)%Z (length p)) s 0%Z;
+       b_sigma := updz (repeat 0%Z (length p)) s 1%Z; b_preds := repeat [] (length p) |}.
+
+  Lemma nth_repeat_nil (m w : nat) : nth w (repeat (@nil nat) m) [] = [].
+  Proof.
+    destruct (nth_in_or_default w (repeat (@nil nat) m) []) as [H|H]; [|exact H].
+    apply repeat_spec in H. exact H.
+  Qed.
+
+  Lemma OInv_init : OInv [] fwd_init.
+  Proof.
+    unfold fwd_init. split; cbn [b_queue b_dists b_sigma b_preds rev app].
+    - assert (Hd : forall v, dzf (updz (repeat (-1)%Z (length p)) s 0%Z) v =
+                              if Nat.eqb v s then 0%Z else nthz (repeat (-1)%Z (length p)) v).
+      { intros v. unfold dzf. apply nthz_updz. rewrite repeat_length. exact Hs. }
+      assert (Hd0 : dzf (updz (repeat (-1)%Z (length p)) s 0%Z) s = 0%Z) by (rewrite Hd, Nat.eqb_refl; reflexivity).
+      constructor.
+      + constructor.
+        * rewrite updz_length. apply repeat_length.
+        * constructor; [intros []|constructor].
+        * intros v [<-|[]]. exact Hs.
+        * intros v [<-|[]]. rewrite Hd0. lia.
+        * intros v Hv Hn. rewrite Hd. destruct (Nat.eqb v s) eqn:E.
+          -- apply Nat.eqb_eq in E. subst v. exfalso. apply Hn. left. reflexivity.
+          -- apply nthz_repeat. exact Hv.
+        * intros l1 l2 E a b Ha Hb. cbn [rev app] in E.
+          assert (Ha' : In a [s]) by (rewrite E; apply in_app_iff; left; exact Ha).
+          assert (Hb' : In b [s]) by (rewrite E; apply in_app_iff; right; exact Hb).
+          destruct Ha' as [<-|[]]. destruct Hb' as [<-|[]]. lia.
+        * intros v [<-|[]]. exists 0. split; [exact Hd0|]. cbn [reachk].
+          rewrite nthb_single_source by exact Hs. apply Nat.eqb_refl.
+        * exact Hd0.
+      + intros x y Hx Hy. cbn [rev app In] in Hx, Hy. destruct Hx as [Hx|[]]. destruct Hy as [Hy|[]]. subst x y. lia.
+      + intros u w [].
+    - constructor.
+      + rewrite updz_length. apply repeat_length.
+      + apply repeat_length.
+      + rewrite nthz_updz by (rewrite repeat_length; exact Hs). rewrite Nat.eqb_refl. reflexivity.
+      + intros w Hw Hws. rewrite nthz_updz by (rewrite repeat_length; exact Hs).
+        destruct (Nat.eqb w s) eqn:E; [apply Nat.eqb_eq in E; contradiction|].
+        rewrite nthz_repeat by exact Hw. reflexivity.
+      + intros w Hw. apply nth_repeat_nil.
+  Qed.
+  (** ** What the forward phase has established when the queue is empty *)
+  Record FwdFinal (seen : list nat) (dists sigma : list Z) (preds : list (list nat)) : Prop := {
+    f_nd : NoDup seen;
+    f_lt : forall v, In v seen -> v < length p;
+    f_lens : length sigma = length p;
+    f_seen : forall v, v < length p -> (In v seen <-> (0 <= dzf dists v)%Z);
+    f_m1 : forall v, v < length p -> ~ In v seen -> dzf dists v = (-1)%Z;
+    f_dist : forall v k, v < length p -> (dzf dists v = Z.of_nat k <-> hop p (src p s) v k);
+    f_unreach : forall v, v < length p -> (dzf dists v = (-1)%Z <-> forall k, ~ reachk p (src p s) k v);
+    f_sorted : sortedL (dzf dists) (rev seen);
+    f_sigma : forall v k, v < length p -> dzf dists v = Z.of_nat k -> (zq (nthz sigma v) == nw p k s v)%Q;
+    f_sigma0 : forall v, v < length p -> ~ In v seen -> nthz sigma v = 0%Z;
+    f_preds : forall w, w < length p -> nth w preds [] = filter (pc dists w) (rev seen) }.
+
+  Lemma fwd_final seen st : OInv seen st -> b_queue st = [] ->
+    FwdFinal seen (b_dists st) (b_sigma st) (b_preds st).
+  Proof.
+    intros [HD HS] Hq. rewrite Hq in HD. destruct HD as [HC _ HCl]. rewrite app_nil_r in *.
+    destruct HS as [S1 S2 S3 S4 S5]. set (d := b_dists st) in *. set (sg := b_sigma st) in *.
+    assert (Hin : forall v, In v seen <-> In v (rev seen)) by (intros v; apply in_rev).
+    assert (Hnds : NoDup seen) by (rewrite <- (rev_involutive seen); apply NoDup_rev; exact (c_nd _ _ HC)).
+    assert (Hlts : forall v, In v seen -> v < length p) by (intros v H; apply (c_lt _ _ HC), Hin; exact H).
+    assert (Hseen : forall v, v < length p -> (In v seen <-> (0 <= dzf d v)%Z)).
+    { intros v Hv. split.
+      - intros H. apply (c_in _ _ HC). apply Hin. exact H.
+      - intros H. destruct (in_dec Nat.eq_dec v (rev seen)) as [Y|N]; [apply Hin; exact Y|].
+        rewrite (c_out _ _ HC v Hv N) in H. lia. }
+    assert (Hclose : forall k v, reachk p (src p s) k v -> v < length p /\ In v seen /\ (dzf d v <= Z.of_nat k)%Z).
+    { induction k as [|k IH]; intros v Hr.
+      - assert (Hv := reachk_lt p s 0 v Hwf Hs Hr). cbn [reachk] in Hr. rewrite nthb_single_source in Hr by exact Hv.
+        apply Nat.eqb_eq in Hr. subst v. assert (H0 := c_s0 _ _ HC). split; [exact Hv|]. split; [apply Hseen; [exact Hv|lia]|lia].
+      - assert (Hv := reachk_lt p s (S k) v Hwf Hs Hr). cbn [reachk] in Hr. destruct Hr as (u & Hru & Hinv).
+        destruct (IH u Hru) as (Hu & Hus & Hud). destruct (HCl u v Hus Hinv) as [H1 H2].
+        split; [exact Hv|]. split; [apply Hin; exact H1|lia]. }
+    assert (Hdist : forall v k, v < length p -> (dzf d v = Z.of_nat k <-> hop p (src p s) v k)).
+    { intros v k Hv. split.
+      - intros E. assert (Hvs : In v (rev seen)) by (apply Hin, Hseen; [exact Hv|lia]).
+        destruct (c_reach _ _ HC v Hvs) as (k' & Ek & Hr). assert (k' = k) by lia. subst k'.
+        split; [exact Hr|]. intros j Hj Hrj. destruct (Hclose j v Hrj) as (_ & _ & Hle). lia.
+      - intros [Hr Hm]. destruct (Hclose k v Hr) as (_ & Hvs & Hle).
+        destruct (c_reach _ _ HC v (proj1 (Hin v) Hvs)) as (k' & Ek & Hr').
+        destruct (Nat.lt_ge_cases k' k) as [L|L]; [exfalso; exact (Hm k' L Hr')|lia]. }
+    assert (Hsig : forall k v, v < length p -> dzf d v = Z.of_nat k -> (zq (nthz sg v) == nw p k s v)%Q).
+    { induction k as [|k IH]; intros v Hv E.
+      - assert (Hh := proj1 (Hdist v 0 Hv) E). destruct Hh as [Hr _]. cbn [reachk] in Hr.
+        rewrite nthb_single_source in Hr by exact Hv. apply Nat.eqb_eq in Hr. subst v.
+        rewrite S3. cbn [nw]. rewrite Nat.eqb_refl. reflexivity.
+      - assert (Hvs : v <> s) by (intros ->; rewrite (c_s0 _ _ HC) in E; lia).
+        rewrite (S4 v Hv Hvs). rewrite (lsumf_bsum (length p) _ seen Hnds Hlts). cbn [nw].
+        apply bsum_ext. intros u Hu. unfold tm, pc, A01.
+        destruct (memn v (row p u)) eqn:Em; [|cbn [andb]; destruct (memn u seen); ring].
+        cbn [andb]. apply memn_In in Em.
+        destruct (nw_zero_or_pos p k s u) as [Z|Pz].
+        + rewrite Z. destruct (memn u seen) eqn:Es; [|ring].
+          destruct (dzf d u + 1 =? dzf d v)%Z eqn:Eq; [|ring].
+          exfalso. apply Z.eqb_eq in Eq. assert (Eu : dzf d u = Z.of_nat k) by lia.
+          apply (Hdist u k Hu) in Eu. destruct Eu as [Hr _]. apply (nw_pos_reach p s Hwf Hs k u Hu) in Hr. lra.
+        + assert (Hr := proj1 (nw_pos_reach p s Hwf Hs k u Hu) Pz).
+          destruct (Hclose k u Hr) as (_ & Hus & Hle). destruct (HCl u v Hus Em) as [_ H2].
+          assert (Eu : dzf d u = Z.of_nat k) by lia.
+          assert (Es : memn u seen = true) by (apply memn_In; exact Hus). rewrite Es.
+          assert (Eq : (dzf d u + 1 =? dzf d v)%Z = true) by (apply Z.eqb_eq; lia). rewrite Eq.
+          rewrite (IH u Hu Eu). ring. }
+    constructor.
+    - exact Hnds.
+    - exact Hlts.
+    - exact S1.
+    - exact Hseen.
+    - intros v Hv Hn. apply (c_out _ _ HC v Hv). intros H. apply Hn, Hin. exact H.
+    - exact Hdist.
+    - intros v Hv. split.
+      + intros E k Hr. destruct (Hclose k v Hr) as (_ & Hvs & _). apply (Hseen v Hv) in Hvs. lia.
+      + intros Hno. apply (c_out _ _ HC v Hv). intros Hvs.
+        destruct (c_reach _ _ HC v Hvs) as (k & _ & Hr). exact (Hno k Hr).
+    - exact (c_sorted _ _ HC).
+    - intros v k Hv E. exact (Hsig k v Hv E).
+    - intros v Hv Hn.
+      assert (Hvs : v <> s).
+      { intros ->. apply Hn. apply (Hseen s Hs). rewrite (c_s0 _ _ HC). lia. }
+      assert (Em : dzf d v = (-1)%Z) by (apply (c_out _ _ HC v Hv); intros H; apply Hn, Hin; exact H).
+      assert (Z : (zq (nthz sg v) == 0)%Q).
+      { rewrite (S4 v Hv Hvs). rewrite (lsumf_ext _ (fun _ => 0%Q)).
+        - clear. induction seen as [|a l IH]; [reflexivity|]. rewrite lsumf_cons, IH. ring.
+        - intros u Hu. unfold tm, pc. assert (H0 := proj1 (Hseen u (Hlts u Hu)) Hu).
+          destruct (dzf d u + 1 =? dzf d v)%Z eqn:E; [apply Z.eqb_eq in E; lia|]. rewrite andb_false_r. reflexivity. }
+      unfold zq in Z. change 0%Q with (inject_Z 0) in Z. apply inject_Z_injective in Z. exact Z.
+    - exact S5.
+  Qed.
 End Forward.
+
+(* ------------------------------------------------------------------------------------------ *)
+(** * Part C. The backward phase (dependency accumulation in reverse discovery order) *)
+
+Lemma memn_ext v a b : (forall x, In x a <-> In x b) -> memn v a = memn v b.
+Proof.
+  intros H. destruct (memn v a) eqn:Ea, (memn v b) eqn:Eb; try reflexivity.
+  - apply memn_In in Ea. apply H in Ea. apply memn_In in Ea. congruence.
+  - apply memn_In in Eb. apply H in Eb. apply memn_In in Eb. congruence.
+Qed.
+
+Section Backward.
+  Context (p : graph) (s : nat) (Hwf : gwf p) (Hs : s < length p).
+  Context (seen : list nat) (dists sigma : list Z) (preds : list (list nat)).
+  Context (HF : FwdFinal p s seen dists sigma preds).
+
+  Definition cf2 (v w : nat) : Q := (zq (nthz sigma v) / zq (nthz sigma w))%Q.
+  Definition dstepf (j : nat) (dl : list Q) (i : nat) : list Q :=
+    upd dl i (Qred (V dl i + zq (nthz sigma i) / zq (nthz sigma j) * (1 + V dl j))%Q).
+
+  Lemma back_step_eq delta scores j :
+    back_step s sigma preds (delta, scores) j =
+    (fold_left (dstepf j) (nth j preds []) delta,
+     if Nat.eqb j s then scores
+     else upd scores j (Qred (V scores j + V (fold_left (dstepf j) (nth j preds []) delta) j)%Q)).
+  Proof. reflexivity. Qed.
+
+  Lemma inner_fold j : forall l dl, NoDup l -> (forall i, In i l -> i < length dl) -> ~ In j l ->
+    length (fold_left (dstepf j) l dl) = length dl /\
+    forall v, (V (fold_left (dstepf j) l dl) v == V dl v + (if memn v l then cf2 v j * (1 + V dl j) else 0))%Q.
+  Proof.
+    induction l as [|a l IH]; intros dl N Hlt Hj.
+    - split; [reflexivity|]. intros v. cbn [fold_left memn existsb]. ring.
+    - cbn [fold_left]. inversion N as [|? ? Na N']; subst.
+      assert (Ha : a < length dl) by (apply Hlt; left; reflexivity).
+      assert (Hja : j <> a) by (intros ->; apply Hj; left; reflexivity).
+      assert (L1 : length (dstepf j dl a) = length dl) by (unfold dstepf; apply upd_length).
+      assert (V1 : forall x, V (dstepf j dl a) x =
+                     if Nat.eqb x a then Qred (V dl a + zq (nthz sigma a) / zq (nthz sigma j) * (1 + V dl j))%Q else V dl x).
+      { intros x. unfold dstepf. apply V_upd. exact Ha. }
+      destruct (IH (dstepf j dl a) N') as [L2 H2].
+      { intros i Hi. rewrite L1. apply Hlt. right. exact Hi. }
+      { intros Hc. apply Hj. right. exact Hc. }
+      split; [rewrite L2; exact L1|]. intros v. rewrite H2.
+      assert (Vj : V (dstepf j dl a) j = V dl j).
+      { rewrite V1. destruct (Nat.eqb j a) eqn:E; [apply Nat.eqb_eq in E; contradiction|reflexivity]. }
+      rewrite Vj, V1. unfold memn. cbn [existsb]. fold (memn v l).
+      destruct (Nat.eqb v a) eqn:E.
+      + apply Nat.eqb_eq in E. subst v. rewrite (memn_false a l Na). cbn [orb]. rewrite Qred_correct. unfold cf2. ring.
+      + cbn [orb]. reflexivity.
+  Qed.
+
+  Definition Fd (dl : list Q) (v w : nat) : Q :=
+    if memn v (nth w preds []) then (cf2 v w * (1 + V dl w))%Q else 0%Q.
+
+  Record BInv (sc0 : list Q) (done : list nat) (acc : list Q * list Q) : Prop := {
+    b_ld : length (fst acc) = length p;
+    b_ls : length (snd acc) = length p;
+    b_delta : forall v, v < length p -> (V (fst acc) v == lsumf (Fd (fst acc) v) done)%Q;
+    b_scores : forall v, v < length p ->
+      (V (snd acc) v == V sc0 v + (if memn v done && negb (Nat.eqb v s) then V (fst acc) v else 0))%Q }.
+
+  Lemma preds_in j i : j < length p -> In i (nth j preds []) ->
+    In i seen /\ In j (row p i) /\ (dzf dists i + 1 = dzf dists j)%Z.
+  Proof.
+    intros Hj Hi. rewrite (f_preds _ _ _ _ _ _ HF j Hj) in Hi. apply filter_In in Hi. destruct Hi as [H1 H2].
+    unfold pc in H2. apply andb_true_iff in H2. destruct H2 as [H2 H3].
+    split; [apply in_rev; exact H1|]. split; [apply memn_In; exact H2|apply Z.eqb_eq; exact H3].
+  Qed.
+
+  Lemma BInv_step sc0 done j rest acc :
+    seen = rev done ++ j :: rest -> BInv sc0 done acc -> BInv sc0 (j :: done) (back_step s sigma preds acc j).
+  Proof.
+    intros Eseen [Ld Ls Hdl Hsc]. destruct acc as [delta scores]. cbn [fst snd] in *.
+    rewrite back_step_eq. set (l := nth j preds []).
+    assert (Hjs : In j seen) by (rewrite Eseen; apply in_app_iff; right; left; reflexivity).
+    assert (Hj : j < length p) by (apply (f_lt _ _ _ _ _ _ HF); exact Hjs).
+    assert (Nl : NoDup l).
+    { unfold l. rewrite (f_preds _ _ _ _ _ _ HF j Hj). apply NoDup_filter. apply NoDup_rev. exact (f_nd _ _ _ _ _ _ HF). }
+    assert (Hll : forall i, In i l -> i < length delta).
+    { intros i Hi. rewrite Ld. destruct (preds_in j i Hj Hi) as [H1 _]. apply (f_lt _ _ _ _ _ _ HF). exact H1. }
+    assert (Hjl : ~ In j l).
+    { intros Hi. destruct (preds_in j j Hj Hi) as (_ & _ & H3). lia. }
+    assert (Hjd : ~ In j done).
+    { assert (N := f_nd _ _ _ _ _ _ HF). rewrite Eseen in N. apply NoDup_remove_2 in N.
+      intros Hc. apply N. apply in_app_iff. left. apply in_rev in Hc. exact Hc. }
+    assert (Hdone : forall w, In w done -> ~ In w l).
+    { intros w Hw Hi. destruct (preds_in j w Hj Hi) as (_ & _ & H3).
+      assert (Hle : (dzf dists j <= dzf dists w)%Z).
+      { apply (f_sorted _ _ _ _ _ _ HF (rev rest ++ [j]) done).
+        - rewrite Eseen, rev_app_distr, rev_involutive. cbn [rev]. reflexivity.
+        - apply in_app_iff. right. left. reflexivity.
+        - exact Hw. }
+      lia. }
+    destruct (inner_fold j l delta Nl Hll Hjl) as [L' H'].
+    set (delta' := fold_left (dstepf j) l delta) in *.
+    assert (Hstab : forall w, ~ In w l -> (V delta' w == V delta w)%Q).
+    { intros w Hw. rewrite H'. rewrite (memn_false w l Hw). ring. }
+    constructor; cbn [fst snd].
+    - rewrite L'. exact Ld.
+    - destruct (Nat.eqb j s); [exact Ls|rewrite upd_length; exact Ls].
+    - intros v Hv. rewrite lsumf_cons, H', (Hdl v Hv).
+      assert (E1 : (lsumf (Fd delta' v) done == lsumf (Fd delta v) done)%Q).
+      { apply lsumf_ext. intros w Hw. unfold Fd. destruct (memn v (nth w preds [])); [|reflexivity].
+        rewrite (Hstab w (Hdone w Hw)). reflexivity. }
+      rewrite E1.
+      assert (E2 : Fd delta' v j = if memn v l then (cf2 v j * (1 + V delta' j))%Q else 0%Q) by reflexivity.
+      rewrite E2. destruct (memn v l); [|ring].
+      rewrite (Hstab j Hjl). ring.
+    - intros v Hv. unfold memn. cbn [existsb]. fold (memn v done).
+      assert (Hold := Hsc v Hv).
+      destruct (Nat.eqb v j) eqn:Evj.
+      + apply Nat.eqb_eq in Evj. subst v. rewrite (memn_false j done Hjd) in Hold. cbn [orb andb] in *.
+        destruct (Nat.eqb j s) eqn:Ejs; cbn [negb].
+        * rewrite Hold. reflexivity.
+        * rewrite V_upd by (rewrite Ls; exact Hj). rewrite Nat.eqb_refl, Qred_correct, Hold. ring.
+      + assert (Vs : V (if Nat.eqb j s then scores else upd scores j (Qred (V scores j + V delta' j)%Q)) v = V scores v).
+        { destruct (Nat.eqb j s); [reflexivity|]. rewrite V_upd by (rewrite Ls; exact Hj). rewrite Evj. reflexivity. }
+        rewrite Vs, Hold. cbn [orb]. destruct (memn v done) eqn:Em; [|reflexivity].
+        cbn [andb]. destruct (negb (Nat.eqb v s)); [|reflexivity].
+        apply memn_In in Em. rewrite (Hstab v (Hdone v Em)). reflexivity.
+  Qed.
+
+  Lemma back_fold sc0 : forall rest done acc,
+    seen = rev done ++ rest -> BInv sc0 done acc ->
+    BInv sc0 (rev rest ++ done) (fold_left (back_step s sigma preds) rest acc).
+  Proof.
+    induction rest as [|j rest IH]; intros done acc E H.
+    - exact H.
+    - cbn [fold_left rev]. rewrite <- app_assoc. cbn [app]. apply IH.
+      + cbn [rev]. rewrite <- app_assoc. exact E.
+      + apply (BInv_step sc0 done j rest); assumption.
+  Qed.
+
+  Lemma BInv_init sc0 : length sc0 = length p -> BInv sc0 [] (repeat 0%Q (length p), sc0).
+  Proof.
+    intros L. constructor; cbn [fst snd].
+    - apply repeat_length.
+    - exact L.
+    - intros v Hv. unfold V. rewrite nthq_repeat by exact Hv. reflexivity.
+    - intros v Hv. cbn [memn existsb andb]. ring.
+  Qed.
+
+  (** Result of the backward phase: the coded recurrence (over the predecessor lists) and the scores. *)
+  Lemma backward_result sc0 : length sc0 = length p ->
+    let acc := fold_left (back_step s sigma preds) seen (repeat 0%Q (length p), sc0) in
+    length (snd acc) = length p /\
+    (forall v, v < length p -> (V (fst acc) v == bsum (length p) (Fd (fst acc) v))%Q) /\
+    (forall v, v < length p ->
+       (V (snd acc) v == V sc0 v + (if memn v seen && negb (Nat.eqb v s) then V (fst acc) v else 0))%Q).
+  Proof.
+    intros L acc. assert (H := back_fold sc0 seen [] _ eq_refl (BInv_init sc0 L)). fold acc in H.
+    rewrite app_nil_r in H. destruct H as [Ld Ls Hdl Hsc]. split; [exact Ls|]. split.
+    - intros v Hv. rewrite (Hdl v Hv), lsumf_rev.
+      rewrite (lsumf_bsum (length p) _ seen (f_nd _ _ _ _ _ _ HF) (f_lt _ _ _ _ _ _ HF)).
+      apply bsum_ext. intros w Hw. destruct (memn w seen) eqn:E; [reflexivity|].
+      unfold Fd. rewrite (memn_false v (nth w preds [])); [reflexivity|].
+      intros Hi. destruct (preds_in w v Hw Hi) as (H1 & _ & H3).
+      assert (H0 : (0 <= dzf dists v)%Z) by (apply (f_seen _ _ _ _ _ _ HF v (f_lt _ _ _ _ _ _ HF v H1)); exact H1).
+      assert (Hws : In w seen) by (apply (f_seen _ _ _ _ _ _ HF w Hw); lia).
+      apply memn_In in Hws. congruence.
+    - intros v Hv. rewrite (Hsc v Hv). rewrite (memn_ext v (rev seen) seen); [reflexivity|].
+      intros x. symmetry. apply in_rev.
+  Qed.
+End Backward.
+
+(* ------------------------------------------------------------------------------------------ *)
+(** * Part D. One source, all sources, the final theorem *)
+
+Definition brandes_forward (p : graph) (s : nat) : bstate * list nat :=
+  brandes_bfs (length p) p (fwd_init p s) [].
+
+Lemma brandes_source_eq p scores s :
+  brandes_source p scores s =
+  snd (fold_left (back_step s (b_sigma (fst (brandes_forward p s))) (b_preds (fst (brandes_forward p s))))
+                 (snd (brandes_forward p s)) (repeat 0%Q (length p), scores)).
+Proof.
+  unfold brandes_source, brandes_forward, fwd_init.
+  destruct (brandes_bfs (length p) p _ []) as [st seen]. reflexivity.
+Qed.
+
+Lemma forward_final p s : gwf p -> gnd p -> s < length p ->
+  b_queue (fst (brandes_forward p s)) = [] /\
+  FwdFinal p s (snd (brandes_forward p s)) (b_dists (fst (brandes_forward p s)))
+           (b_sigma (fst (brandes_forward p s))) (b_preds (fst (brandes_forward p s))).
+Proof.
+  intros Hwf Hnd Hs. unfold brandes_forward.
+  destruct (brandes_bfs_inv p s Hwf Hnd Hs (length p) (fwd_init p s) [] (OInv_init p s Hs)) as [HI Hq]; [cbn [length]; lia|].
+  split; [exact Hq|]. apply (fwd_final p s Hwf Hs); assumption.
+Qed.
+
+Definition dfun_of (dists : list Z) (v : nat) : option nat :=
+  if (0 <=? dzf dists v)%Z then Some (Z.to_nat (dzf dists v)) else None.
+
+Lemma dfun_of_some dists v d : dfun_of dists v = Some d <-> dzf dists v = Z.of_nat d.
+Proof.
+  unfold dfun_of. destruct (0 <=? dzf dists v)%Z eqn:E.
+  - apply Z.leb_le in E. split; [intros H; injection H as H; lia|intros H; f_equal; lia].
+  - apply Z.leb_gt in E. split; [discriminate|intros H; lia].
+Qed.
+
+Section OneSource.
+  Context (p : graph) (s : nat) (Hwf : gwf p) (Hs : s < length p).
+  Context (seen : list nat) (dists sigma : list Z) (preds : list (list nat)).
+  Context (HF : FwdFinal p s seen dists sigma preds).
+
+  Lemma dfun_sdist v d : v < length p -> dfun_of dists v = Some d -> sdist p s v d.
+  Proof.
+    intros Hv E. apply dfun_of_some in E. apply (sdist_hop p s v d Hwf Hs Hv).
+    apply (f_dist _ _ _ _ _ _ HF v d Hv). exact E.
+  Qed.
+
+  Lemma dfun_unreach v : v < length p -> dfun_of dists v = None -> forall k, (nw p k s v == 0)%Q.
+  Proof.
+    intros Hv E k. destruct (nw_zero_or_pos p k s v) as [Z|Pz]; [exact Z|]. exfalso.
+    apply (nw_pos_reach p s Hwf Hs k v Hv) in Pz.
+    unfold dfun_of in E. destruct (0 <=? dzf dists v)%Z eqn:E0; [discriminate|]. apply Z.leb_gt in E0.
+    assert (Hns : ~ In v seen) by (intros H; apply (f_seen _ _ _ _ _ _ HF v Hv) in H; lia).
+    assert (Em := f_m1 _ _ _ _ _ _ HF v Hv Hns).
+    exact (proj1 (f_unreach _ _ _ _ _ _ HF v Hv) Em k Pz).
+  Qed.
+
+  Lemma memn_preds v w dv : v < length p -> w < length p -> dfun_of dists v = Some dv ->
+    memn v (nth w preds []) = memn w (row p v) && isd (dfun_of dists) w (S dv).
+  Proof.
+    intros Hv Hw Ev. apply dfun_of_some in Ev.
+    rewrite (f_preds _ _ _ _ _ _ HF w Hw).
+    destruct (memn w (row p v) && isd (dfun_of dists) w (S dv)) eqn:C.
+    - apply andb_true_iff in C. destruct C as [C1 C2]. apply isd_true in C2. apply dfun_of_some in C2.
+      apply memn_In. apply filter_In. split.
+      + apply -> in_rev. apply (f_seen _ _ _ _ _ _ HF v Hv). lia.
+      + unfold pc. rewrite C1. cbn [andb]. apply Z.eqb_eq. lia.
+    - apply memn_false. intros Hi. apply filter_In in Hi. destruct Hi as [_ Hpc].
+      unfold pc in Hpc. apply andb_true_iff in Hpc. destruct Hpc as [P1 P2]. apply Z.eqb_eq in P2.
+      assert (C2 : isd (dfun_of dists) w (S dv) = true) by (apply isd_true, dfun_of_some; lia).
+      rewrite P1, C2 in C. discriminate.
+  Qed.
+
+  (** Brandes' theorem for the model: the accumulated delta is the dependency of s on v. *)
+  Lemma delta_is_dependency (dl : list Q) :
+    (forall v, v < length p -> (V dl v == bsum (length p) (Fd sigma preds dl v))%Q) ->
+    forall v dv, v < length p -> dfun_of dists v = Some dv -> (V dl v == DD p s v)%Q.
+  Proof.
+    intros Hrec. apply (recurrence_unique p s Hwf Hs (dfun_of dists) dfun_sdist dfun_unreach (V dl)).
+    intros v dv Hv Ev. rewrite (Hrec v Hv). apply bsum_ext. intros w Hw.
+    unfold Fd. rewrite (memn_preds v w dv Hv Hw Ev).
+    destruct (memn w (row p v) && isd (dfun_of dists) w (S dv)) eqn:C; [|reflexivity].
+    apply andb_true_iff in C. destruct C as [_ C2]. apply isd_true in C2.
+    unfold cf2, sgf. rewrite Ev, C2.
+    rewrite (f_sigma _ _ _ _ _ _ HF v dv Hv) by (apply dfun_of_some; exact Ev).
+    rewrite (f_sigma _ _ _ _ _ _ HF w (S dv) Hw) by (apply dfun_of_some; exact C2).
+    reflexivity.
+  Qed.
+
+  Lemma one_source_scores sc0 : length sc0 = length p ->
+    let acc := fold_left (back_step s sigma preds) seen (repeat 0%Q (length p), sc0) in
+    length (snd acc) = length p /\
+    forall v, v < length p -> (V (snd acc) v == V sc0 v + (if Nat.eqb v s then 0 else DD p s v))%Q.
+  Proof.
+    intros L acc. destruct (backward_result p s Hs seen dists sigma preds HF sc0 L) as (H1 & H2 & H3).
+    fold acc in H1, H2, H3. split; [exact H1|]. intros v Hv. rewrite (H3 v Hv).
+    destruct (Nat.eqb v s); [rewrite andb_false_r; reflexivity|]. rewrite andb_true_r.
+    destruct (memn v seen) eqn:E.
+    - apply memn_In in E. apply (f_seen _ _ _ _ _ _ HF v Hv) in E.
+      assert (Ev : dfun_of dists v = Some (Z.to_nat (dzf dists v))) by (apply dfun_of_some; lia).
+      rewrite (delta_is_dependency (fst acc) H2 v _ Hv Ev). reflexivity.
+    - assert (Hns : ~ In v seen) by (intros H; apply memn_In in H; congruence).
+      assert (Em := f_m1 _ _ _ _ _ _ HF v Hv Hns).
+      assert (Ev : dfun_of dists v = None) by (unfold dfun_of; rewrite Em; reflexivity).
+      rewrite (DD_unreach p s (dfun_of dists) dfun_unreach v Hv Ev). reflexivity.
+  Qed.
+End OneSource.
+
+Lemma brandes_source_spec p sc s : gwf p -> gnd p -> s < length p -> length sc = length p ->
+  length (brandes_source p sc s) = length p /\
+  forall v, v < length p -> (V (brandes_source p sc s) v == V sc v + (if Nat.eqb v s then 0 else DD p s v))%Q.
+Proof.
+  intros Hwf Hnd Hs L. rewrite brandes_source_eq.
+  destruct (forward_final p s Hwf Hnd Hs) as [_ HF].
+  exact (one_source_scores p s Hwf Hs _ _ _ _ HF sc L).
+Qed.
+
+Lemma fold_sources p : gwf p -> gnd p -> forall l sc,
+  (forall s, In s l -> s < length p) -> length sc = length p ->
+  length (fold_left (brandes_source p) l sc) = length p /\
+  forall v, v < length p ->
+    (V (fold_left (brandes_source p) l sc) v == V sc v + lsumf (fun s => if Nat.eqb v s then 0 else DD p s v) l)%Q.
+Proof.
+  intros Hwf Hnd. induction l as [|a l IH]; intros sc Hl L.
+  - split; [exact L|]. intros v Hv. cbn [fold_left]. unfold lsumf. cbn [fold_right]. ring.
+  - cbn [fold_left].
+    destruct (brandes_source_spec p sc a Hwf Hnd (Hl a (or_introl eq_refl)) L) as [L1 H1].
+    destruct (IH (brandes_source p sc a) (fun x Hx => Hl x (or_intror Hx)) L1) as [L2 H2].
+    split; [exact L2|]. intros v Hv. rewrite (H2 v Hv), (H1 v Hv), lsumf_cons. ring.
+Qed.
+
+Lemma lsumf_seq f n : (lsumf f (seq 0 n) == bsum n f)%Q.
+Proof.
+  induction n as [|n IH]; [reflexivity|]. rewrite seq_S, lsumf_app, IH. cbn [bsum Nat.add].
+  unfold lsumf at 1. cbn [fold_right]. ring.
+Qed.
+
+Lemma sdist_self p s : sdist p s s 0.
+Proof. split; [cbn [nw]; rewrite Nat.eqb_refl; lra|intros k Hk; lia]. Qed.
+
+Lemma pair_dep_self p s v : gwf p -> s < length p -> v < length p -> v <> s -> (pair_dependency p s s v == 0)%Q.
+Proof.
+  intros Hwf Hs Hv Hvs. unfold pair_dependency. rewrite (sp_info_some p s s 0 Hwf Hs Hs (sdist_self p s)).
+  destruct (sp_info p s v) as [[d1 x]|] eqn:E1; [|reflexivity].
+  destruct (sp_info p v s) as [[d2 y]|]; [|reflexivity].
+  destruct (Nat.eqb (d1 + d2) 0) eqn:E; [|reflexivity]. exfalso. apply Nat.eqb_eq in E.
+  destruct (sp_info_inv p s v d1 x Hv E1) as ([Pz _] & _ & _).
+  assert (d1 = 0) by lia. subst d1. cbn [nw] in Pz.
+  destruct (Nat.eqb s v) eqn:E2; [apply Nat.eqb_eq in E2; congruence|lra].
+Qed.
+
+(** The sum of the dependencies over all sources is the textbook sum over ordered pairs. *)
+Lemma total_is_ordered p v : gwf p -> v < length p ->
+  (bsum (length p) (fun s => if Nat.eqb v s then 0 else DD p s v) == betweenness_ordered p v)%Q.
+Proof.
+  intros Hwf Hv. unfold betweenness_ordered. cbv zeta. rewrite Qred_correct. apply bsum_ext. intros s Hs.
+  rewrite (Nat.eqb_sym v s). destruct (Nat.eqb s v) eqn:Esv.
+  - cbn [orb]. symmetry. apply bsum_0. intros; reflexivity.
+  - cbn [orb]. unfold DD. apply bsum_ext. intros t Ht.
+    destruct (Nat.eqb t v); cbn [orb]; [reflexivity|].
+    destruct (Nat.eqb s t) eqn:Est; [|reflexivity].
+    apply Nat.eqb_eq in Est. subst t. apply Nat.eqb_neq in Esv.
+    apply pair_dep_self; try assumption. intros E. apply Esv. symmetry. exact E.
+Qed.
+
+Lemma pattern_length g : length (pattern g) = length g.
+Proof. unfold pattern. apply map_length. Qed.
+
+(** C04, betweenness: the coded Brandes accumulation equals the textbook betweenness on EVERY graph
+    whose rows store in-range, duplicate-free column indices. *)
+Theorem brandes_exact_proof (g : wgraph) :
+  gwf (pattern g) -> gnd (pattern g) ->
+  length (betweenness g) = length g /\ length (betweenness_spec g) = length g /\
+  forall v, v < length g -> (V (betweenness g) v == V (betweenness_spec g) v)%Q.
+Proof.
+  intros Hwf Hnd. unfold betweenness, betweenness_spec. cbv zeta.
+  set (p := pattern g) in *. assert (Lp : length p = length g) by apply pattern_length.
+  destruct (fold_sources p Hwf Hnd (seq 0 (length p)) (repeat 0%Q (length p))) as [L1 H1].
+  { intros s Hin. apply in_seq in Hin. lia. }
+  { apply repeat_length. }
+  set (sc := fold_left (brandes_source p) (seq 0 (length p)) (repeat 0%Q (length p))) in *.
+  assert (Hsc : forall v, v < length p -> (V sc v == betweenness_ordered p v)%Q).
+  { intros v Hv. rewrite (H1 v Hv), lsumf_seq, (total_is_ordered p v Hwf Hv).
+    unfold V at 1. rewrite nthq_repeat by exact Hv. ring. }
+  rewrite <- Lp.
+  split; [destruct (is_symmetric g); [rewrite map_length|]; exact L1|].
+  split; [rewrite map_length; apply seq_length|].
+  intros v Hv. unfold V at 2. unfold nthq. rewrite nth_map_seq by exact Hv.
+  destruct (is_symmetric g).
+  - rewrite V_div, Qred_correct, (Hsc v Hv). reflexivity.
+  - exact (Hsc v Hv).
+Qed.
